@@ -389,7 +389,7 @@ class Gen(object):
         kinds = [("assign", 8), ("expr", 5), ("aug", 2), ("if", 4), ("for", 3), ("while", 2), ("try", 3),
                  ("with", 2), ("def", 5 if d > 0 else 0), ("class", 2 if d > 0 else 0), ("import", 2),
                  ("assert", 1), ("del", 1), ("raise", 1), ("ann", 1), ("pass", 1), ("multiline", 2),
-                 ("global", 1), ("unpack", 1), ("bigtable", 0.3), ("longif", 0.3)]
+                 ("global", 1), ("unpack", 1), ("bigtable", 0.3), ("longif", 0.3), ("longfor", 0.3)]
         if self.in_fn():
             kinds += [("return", 3), ("dead", 1), ("closure", 2 if d > 0 else 0), ("nonlocal", 1 if d > 0 else 0)]
         if self.loop:
@@ -400,7 +400,7 @@ class Gen(object):
             kinds.append(("match", 1))
         if d <= 0:
             kinds = [(k, w) for k, w in kinds if k not in ("if", "for", "while", "try", "with", "match",
-                                                             "asyncfor", "asyncwith", "longif")] + [("assign", 5)]
+                                                             "asyncfor", "asyncwith", "longif", "longfor")] + [("assign", 5)]
         k = rng.weighted(kinds)
         e = self.expr
         if k == "assign":
@@ -457,6 +457,16 @@ class Gen(object):
             n = rng.choice([40, 70, 130])
             body = ["%s = %s + %d" % (self.ident(), self.ident(), i) for i in range(n)]
             return ["if %s:" % self.ident()] + self.indent(body) + ["else:"] + self.indent(["%s = %s" % (self.ident(), e(1))])
+        if k == "longfor":
+            # a loop (or try) whose RELATIVE jump needs an EXTENDED_ARG, with an early `if` (absolute jump) inside
+            n = rng.choice([90, 150, 300])
+            body = ["if %s:" % self.ident(), "    %s = %s" % (self.ident(), const_src(rng, 0))]
+            body += ["%s = %s + %d" % (self.ident(), self.ident(), i) for i in range(n)]
+            head = rng.choice(["for %s in %s:" % (self.ident(), self.ident()), "try:", "with %s:" % self.ident()])
+            out = [head] + self.indent(body)
+            if head == "try:":
+                out += ["finally:", "    pass"]
+            return out
         if k == "for":
             self.loop += 1
             try:
